@@ -162,6 +162,14 @@ impl FilePersist {
             for shard_name in &shard_names {
                 persist.flush(shard_name)?;
             }
+        } else {
+            // Nothing readable in the WAL. If the file still holds bytes they are the torn tail
+            // of an unacknowledged append (no trailing newline): remove them, otherwise the next
+            // append would be glued onto the garbage and become unreadable itself.
+            let mut wal = persist.wal.lock();
+            if wal.file_size() > 0 {
+                wal.clear()?;
+            }
         }
 
         // Clean up stale .archived and .new WAL files from previous runs
